@@ -23,7 +23,7 @@ from common import (GEN, BrokenTie, Result, compile_gen, compile_many, coq_eval_
 
 PROP = 'C14'
 TABS = [('int1', 't1'), ('int2', 't2'), ('int3', 't3'), ('int1', 'u1'), ('int2', 'u2')]
-MODELS = [('proj.pred', None), ('proj.pred2', 'c'), ('proj.pred.3', None)]
+MODELS = [('proj.pred', None), ('proj.pred2', 'c'), ('proj.pred.3', None), ('proj.pred3', 'bc')]
 COLS = ['a', 'b', 'c']
 
 
@@ -182,6 +182,8 @@ EDGE = [
     "select * from int1.t1 join proj.pred2 as m where m.c = 1 and m.C = 2 and m.a = 3 and m.a = 4",
     "select * from int1.t1 join proj.pred as m on t1.a = m.a and t1.b = m.c where m.a = 1 using A=1, a=2, m.B=3",
     "select * from proj.pred as m join int1.t1 where m.a = 1 and t1.b = 2",
+    "select * from int1.t1 join proj.pred3 as m where m.b = 1 and m.c = 2 and m.bc = 3 and m.a = 4",
+    "select * from int1.t1 join proj.pred3 as m where m.B = 1 and m.BC = 3",
     "select * from int1.t1 as x join proj.pred as m join int2.t2 as z on z.a = x.a and z.b = 1 join proj.pred2 as m2 where m.a = 1 and m2.b = 2 and z.c = 3",
 ]
 
